@@ -24,12 +24,12 @@ def chans (v : VT) : List Nat := List.range v.nch
 def joinC (xs : List Int) : String := ",".intercalate (xs.map toString)
 
 /-- result channel value printed by the harness for an exact accumulator -/
-def castQ (v : VT) (q : Rat) : Int := if v.isF then truncQ (q * 64) else truncQ q
-def showSrc (v : VT) (x : Int) : Int := if v.isF then x * 64 else x
+def castQ (v : VT) (q : Rat) : Int := if v.isF then truncQ (q * 256) else truncQ q
+def showSrc (v : VT) (x : Int) : Int := if v.isF then x * 256 else x
 
 /-- result channel value for a double accumulator -/
 def castF (v : VT) (a : Float) : Int :=
-  if v.isF then f2i (Float.round (a.toFloat32.toFloat * 64.0)) else f2i a
+  if v.isF then f2i (Float.round (a.toFloat32.toFloat * 256.0)) else f2i a
 
 def pointTokenQ (v : VT) (bil : Bool) (w h nx ny D : Int) : String :=
   if bil then
@@ -178,6 +178,8 @@ def judgePoint (v : VT) (w h nx ny D : Int) (tok : String) : Option String :=
     | none => some "not-a-value"
     | some vs =>
       if vs.length ≠ v.nch then some "shape" else
+      -- farther than one pixel from the view: no source pixel surrounds the point, the sampler must say "outside"
+      if farOutside w h nx ny D then some "sampled-far-outside" else
       let sur := surrounding w h nx ny D
       let bad := (chans v).zip vs |>.any (fun (c, x) =>
         let ss := sur.map (fun q => showSrc v (v.src c q.1 q.2))
@@ -207,6 +209,8 @@ def closeQ (a b tol : Rat) : Bool := absQ (a - b) ≤ tol
 
 def judge (op obs : String) : String :=
   let fail (s : String) := "fail " ++ s
+  if obs.startsWith "assert" || obs.startsWith "ub:" || obs.startsWith "crash" || obs.startsWith "timeout" then
+    fail ("aborted-" ++ (obs.take 60).toString) else
   match words op with
   | [k, vt, _, w, h, D, ny, nx0, n, step] =>
     match ints [w, h, D, ny, nx0, n, step] with
